@@ -141,6 +141,10 @@ def run(ctx):
                 if out != impl:
                     ctx.mismatch("create_and_fill (exact)", replay, impl, out)
                 continue
+            if op == "defaultType":
+                if out.get("ok", "ERR") != impl:
+                    ctx.mismatch("default_type (exact)", replay, impl, out)
+                continue
             if op == "schemaHyps":
                 # the schema-level guards of the theorems, measured on every schema the constructor accepted: every content
                 # automaton deterministic and in range (hdet / DfaWF / WrapWF), and LIVE — from every reachable state a valid end
@@ -199,6 +203,17 @@ def run(ctx):
             for qi, m in enumerate(sts):
                 if ctx.time_left() < 0:
                     break
+                # ---- default_type: the first generatable type the state offers (exact tie + the definition read off `next`)
+                std, dt = outcome(lambda: m.default_type)
+                exp_dt = next((e.type for e in m.next if generatable(e.type)), None)
+                ctx.count("default_type:" + ("some" if dt is not None else "none"))
+                if std != "ok" or dt is not exp_dt:
+                    ctx.violation("default_type", "default_type is not the first type the state offers that is neither text nor needs attributes",
+                                  {"schema": info.name, "type": t.name, "content": t.spec.get("content"), "state": qi,
+                                   "got": getattr(dt, "name", str(dt)), "expected": getattr(exp_dt, "name", None)})
+                if std == "ok":
+                    reqs.append({"op": "defaultType", "s": info.lean_id, "type": info.nid[t.name], "state": qi})
+                    metas.append(("defaultType", {"schema": info.name, "type": t.name, "state": qi}, None if dt is None else info.nid[dt.name]))
                 # ---- fill_before
                 for _ in range(ctx.budget(2, 5)):
                     after = rng.choice(frags) if rng.random() < 0.7 else Fragment.empty
